@@ -24,8 +24,9 @@ def run(chk):
     chk.prove("canary:c01:estimate>=true+1", hyps + [z3.Int("depth") == 1, z3.Int("width") == 1], z3.Int("res") >= z3.Function("f", z3.IntSort(), z3.IntSort())(z3.Int("key")) + 1, expect="refuted")
     chk.kernel("countmin._add_ngram_linear")
     _glue.glue_part(chk, ["CountMinLinear"], {"add", "query", "getitem", "update", "add_ngram", "update_ngram"}, lambda: _oracle.c01_history(chk, 200))
-    from . import C10
+    from . import C08, C10
 
+    C08.merge_tree_part(chk, ("cms",))  # 'merges in any tree' include the tree the library builds
     C10.part(chk, ["CountMinLinear"])  # the save/load step of a history: same parameters and table
     hn = 30 if chk.tier == "quick" else 1500
     hb = _oracle.c01_history(chk, hn)
